@@ -64,6 +64,13 @@ HARNESS(h_cp_to_utf8) {
   WIT(ec == 0 && n == 4);
 }
 
+HARNESS(h_sur_class) {
+  HAVOC(IN_cp);
+  u32 r = k_sur_class(IN_cp);
+  u32 want = ((IN_cp >= 0xD800 && IN_cp <= 0xDBFF) ? 1 : 0) | ((IN_cp >= 0xDC00 && IN_cp <= 0xDFFF) ? 2 : 0) | ((IN_cp >= 0xD800 && IN_cp <= 0xDFFF) ? 4 : 0);
+  P(r == want, "is_high_surrogate / is_low_surrogate / is_surrogate == the UTF-16 ranges D800-DBFF / DC00-DFFF / D800-DFFF");
+  WIT(r == 5);
+}
 /* reference RFC 8259 section 7 un-escaper for the inside of a JSON string, one unit (raw char | 2-char escape | \uXXXX | surrogate pair) per call.
    Loop-free so that the only loops are over input scalars (bound N). */
 #define OUTCAP (N * 12 + 4)
